@@ -384,7 +384,7 @@ func TestProg(t *testing.T) {
 		if rapid.IntRange(0, 2).Draw(rt, "joined") == 0 {
 			return mkInput(gen.WithStrayBytes(rt, gen.RenderJoined(gen.RapidChooser{T: rt}, gen.Program(rt))))
 		}
-		return mkInput(gen.WithStrayBytes(rt, genProg(rt).Src.input()))
+		return mkInput(gen.WithManyStatements(rt, gen.WithStrayBytes(rt, genProg(rt).Src.input())))
 	}, func(c InputCase) *rp.Fail {
 		x := c.input()
 		s.Progress(0, []byte(x))
